@@ -24,6 +24,7 @@ func init() {
 		c12WriterState(c)
 		clientCloseRule(c, "C12/CLIENT-CLOSE")
 		chanOpsRule(c, "C12/CHAN-OPS")
+		onErrorCancelRule(c, "C12/ONERROR-CANCEL")
 		noPanicFor(c, "C12")
 	}
 }
@@ -233,14 +234,16 @@ func c12TimerOutsideLoop(c *Ctx) {
 }
 
 // c12WriterState: while the client is in Play / Record its writer exists.
-func c12WriterState(c *Ctx) {
+func c12WriterState(c *Ctx) { writerStateRule(c, "C12/WRITER-STATE") }
+
+func writerStateRule(c *Ctx, rule string) {
 	p, r := c.P, c.R
-	r.Rule("C12/WRITER-STATE", "a client function that destroys the write queue returns either with the queue re-created or with the state moved out of Play / Record: otherwise the teardown path (destroyWriter in doClose, which runs in those states) dereferences a nil writer and crashes the process", 3)
+	r.Rule(rule, "a client function that destroys the write queue returns either with the queue re-created or with the state moved out of Play / Record: otherwise the teardown path (destroyWriter in doClose, which runs in those states) dereferences a nil writer and crashes the process", 3)
 	destroy := p.Func("", "Client.destroyWriter")
 	create := p.Func("", "Client.createWriter")
 	cs := p.Func("", "Client.checkState")
 	stateF := p.Field("", "Client", "state")
-	if !r.Anchor("C12/WRITER-STATE", "Client.{destroyWriter,createWriter,checkState,state}", destroy != nil && create != nil && cs != nil && stateF != nil) {
+	if !r.Anchor(rule, "Client.{destroyWriter,createWriter,checkState,state}", destroy != nil && create != nil && cs != nil && stateF != nil) {
 		return
 	}
 	states := enumConsts(p, "", "clientState")
@@ -278,7 +281,7 @@ func c12WriterState(c *Ctx) {
 	for _, ref := range p.RefsTo(destroy) {
 		fn := ref.Caller
 		if fn.Name() == "doClose" {
-			r.OK("C12/WRITER-STATE", "Client.doClose destroys the writer", p.Pos(ref.Instr.Pos()), "terminal teardown: nothing runs afterwards")
+			r.OK(rule, "Client.doClose destroys the writer", p.Pos(ref.Instr.Pos()), "terminal teardown: nothing runs afterwards")
 			continue
 		}
 		// predicate calls for the FD analysis
@@ -328,6 +331,6 @@ func c12WriterState(c *Ctx) {
 				}
 			}
 		}
-		r.Check(len(bad) == 0, "C12/WRITER-STATE", fnShort(fn)+" after destroyWriter", p.Pos(ref.Instr.Pos()), "every return either re-creates the writer or leaves Play / Record", strings.Join(bad, "; "))
+		r.Check(len(bad) == 0, rule, fnShort(fn)+" after destroyWriter", p.Pos(ref.Instr.Pos()), "every return either re-creates the writer or leaves Play / Record", strings.Join(bad, "; "))
 	}
 }
